@@ -39,7 +39,7 @@ import subprocess as _real_subprocess
 import tempfile
 import types
 
-SOLVER_WALL_CAP_S = 120
+SOLVER_WALL_CAP_S = 30
 
 FAULT_KINDS = [
     "exe_missing", "exit_before", "killed_before", "exit_after", "killed_after", "sol_missing", "sol_empty",
@@ -107,9 +107,13 @@ class _SimPopen(object):
         if kind == "tmpdir_gone":
             shutil.rmtree(os.path.dirname(sol), ignore_errors=True)
             self.rec["fired"] = True
+        import time as _time
+
+        t_start = _time.time()
         p = _real_subprocess.Popen(self.args, **self.kw)
         try:
             rc = p.wait(timeout=SOLVER_WALL_CAP_S)
+            self.rec["elapsed"] = _time.time() - t_start  # never part of a history digest
         except _real_subprocess.TimeoutExpired:
             # a solver that does not come back is killed by the operator (the simulator): to chempy this is a
             # solver process that died (-9).  Healthy instances take milliseconds to a few seconds.
@@ -281,7 +285,7 @@ def install():
                             except OSError:
                                 pass
                 if rec["fired"]:
-                    WORLD.fired.append(kind)
+                    WORLD.fired.append(kind or ("solver_hung_killed" if rec.get("solver_hung_killed") else "unplanned"))
 
     SimCBC.__name__ = "PULP_CBC_CMD"
     pulp.PULP_CBC_CMD = SimCBC
